@@ -21,6 +21,7 @@ package transport
 //     (Announced length == 12 is outside the quantifier of C16: observed only.)
 
 import (
+	"strings"
 	"bytes"
 	"encoding/json"
 	"fmt"
@@ -491,6 +492,79 @@ func (c *c16run) roundtrip(w c16writerFn, l, pat int, only string) {
 	}
 }
 
+// c16compMsg builds a message whose packed form depends on name compression:
+// n address records under one owner name of the given wire length, Compress set.
+func c16compMsg(n, nameLen int) *dns.Msg {
+	var labels []string
+	left := nameLen - 1 // root label
+	for left > 0 {
+		l := left - 1
+		if l > 63 {
+			l = 63
+		}
+		if l <= 0 {
+			break
+		}
+		labels = append(labels, strings.Repeat("c", l))
+		left -= l + 1
+	}
+	name := strings.Join(labels, ".") + "."
+	m := new(dns.Msg)
+	m.Id = 0x1616
+	m.Response = true
+	m.Compress = true
+	m.Question = []dns.Question{{Name: name, Qtype: dns.TypeA, Qclass: dns.ClassINET}}
+	for i := 0; i < n; i++ {
+		m.Answer = append(m.Answer, &dns.A{Hdr: dns.RR_Header{Name: name, Rrtype: dns.TypeA, Class: dns.ClassINET, Ttl: uint32(i)}, A: []byte{192, 0, 2, byte(i)}})
+	}
+	return m
+}
+
+// compressed: a message that packs (much) smaller than its uncompressed length
+// through the dns.Msg based writers: the frame must be BE16(len)||packed form.
+func (c *c16run) compressed(w c16writerFn, n, nameLen int) {
+	res := c.res
+	in := c16input{Kind: "compressed", Writer: w.name, Len: n, Pattern: nameLen}
+	m := c16compMsg(n, nameLen)
+	raw, err := m.Pack()
+	if err != nil {
+		res.Infra = fmt.Sprintf("harness: cannot pack the compressed message n=%d name=%d: %v", n, nameLen, err)
+		return
+	}
+	c.calls++
+	res.Evaluations++
+	wr := w.run(raw, m)
+	cls := fmt.Sprintf("uncompressed%s/packed%s", c16lenClass(m.Len()), c16lenClass(len(raw)))
+	if len(raw) > 65535 {
+		if wr.err == nil || len(wr.stream) > 0 {
+			c.violate("write/oversize-accepted/"+w.name, fmt.Sprintf("%s accepted a message that packs to %d bytes", w.name, len(raw)), in)
+		} else {
+			res.Outcome("compressed/" + w.name + "/refused-oversize")
+		}
+		return
+	}
+	want := c16frame(raw)
+	switch {
+	case wr.panicky != "":
+		c.violate("write/panic/"+w.name, fmt.Sprintf("%s panicked for a compressed message (%d records, packed %d, uncompressed %d bytes): %s", w.name, n, len(raw), m.Len(), wr.panicky), in)
+		return
+	case wr.err != nil:
+		c.violate("write/refused-valid-length/"+w.name, fmt.Sprintf("%s refused a message that packs to %d bytes (<= 65535; %d records, compression on): %v", w.name, len(raw), n, wr.err), in)
+		return
+	case !bytes.Equal(wr.stream, want):
+		c.violate("write/misframed/"+w.name, fmt.Sprintf("%s produced %s for a compressed message packing to %d bytes (uncompressed %d), want header %02x%02x + the packed message (%s)",
+			w.name, c16short(wr.stream), len(raw), m.Len(), want[0], want[1], c16diff(wr.stream, want)), in)
+		return
+	}
+	res.Outcome("compressed/" + w.name + "/exact-frame/" + cls)
+	c.calls++
+	res.Evaluations++
+	o := c16readMsg(&c16reader{data: wr.stream, seg: func(int) int { return 7 }})
+	if o.panicky != "" || o.err != nil || o.m == nil || len(o.m.Answer) != n || o.n != len(raw)+2 {
+		c.violate("readmsg/changed", fmt.Sprintf("compressed message (%d records) came back changed through the writer and ReadMsgFromTCP: n=%d err=%v panic=%q", n, o.n, o.err, o.panicky), in)
+	}
+}
+
 // refuse: a message longer than 65535 bytes must be refused by every writer.
 func (c *c16run) refuse(w c16writerFn, l, pat int) {
 	res := c.res
@@ -671,6 +745,33 @@ func TestVerifC16a(t *testing.T) {
 			break
 		}
 	}
+	// Z: messages whose packed size depends on name compression (the writers must
+	// size their buffers by what Pack produces, not by either length estimate)
+	zn := []int{1, 2, 3, 10, 30, 60, 100, 200, 255, 256, 300, 511, 1000, 2000, 4000}
+	zl := []int{3, 30, 64, 100, 255}
+	if thorough {
+		zn = nil
+		for n := 1; n <= 4200; n++ {
+			zn = append(zn, n)
+		}
+		zl = []int{3, 10, 30, 63, 64, 65, 100, 128, 200, 254, 255}
+	}
+	res.Bounds["a.compressed"] = fmt.Sprintf("%d record counts (1..%d) x owner name lengths %v, Compress=true, through PackTCPBuffer and WriteMsgToTCP", len(zn), zn[len(zn)-1], zl)
+	zu := int64(0)
+	for _, n := range zn {
+		for _, nl := range zl {
+			zu++
+			if !e.Mine(zu) || res.Infra != "" {
+				continue
+			}
+			for _, w := range c16writers {
+				if !w.raw {
+					c.compressed(w, n, nl)
+					states++
+				}
+			}
+		}
+	}
 	// X: oversized
 	unit := int64(0)
 	for _, l := range []int{65536, 65537, 100000} {
@@ -769,6 +870,11 @@ func c16replay(t *testing.T, c *c16run, raw json.RawMessage) {
 			t.Fatal("INFRA: unknown writer")
 		}
 		c.refuse(*w, in.Len, in.Pattern)
+	case "compressed":
+		if w == nil {
+			t.Fatal("INFRA: unknown writer")
+		}
+		c.compressed(*w, in.Len, in.Pattern)
 	case "header":
 		if in.Header < 0 {
 			o := c16readRaw(&c16reader{data: make([]byte, in.Body), seg: c16list()})
